@@ -310,7 +310,9 @@ func main() {
 				agg[k] += v
 			}
 		}
-		if ex, ok := r.Stats["exhaustive"].(bool); ok && !ex {
+		note, _ := r.Stats["note"].(string)
+		if ex, ok := r.Stats["exhaustive"].(bool); ok && !ex && !strings.Contains(note, "supplement") {
+			// (supplement units are sampling by nature; they are listed but do not decide)
 			exhaustive = false
 		}
 		if st, ok := r.Stats["sample_traces"].([]any); ok && len(st) > 0 && len(samples) < 6 {
